@@ -1,5 +1,37 @@
 package main
 
+import (
+	"encoding/json"
+	"fmt"
+	"os"
+	"path/filepath"
+
+	"verif/rewrite"
+)
+
+// prepareWsimObserver injects the fact observer into the working tree's
+// lang/check (overlay only; /repo is not touched) and builds the engine with
+// the tag that connects to it.
+func prepareWsimObserver(c *prepCtx) error {
+	files, err := rewrite.RewriteFactObserver(repoRoot)
+	if err != nil {
+		return fmt.Errorf("the working tree's lang/check/bounds.go no longer has the shape the fact observer needs (no verdict): %v", err)
+	}
+	ov, err := rewrite.WriteOverlay(filepath.Join(c.Scratch, "rw"), files)
+	if err != nil {
+		return err
+	}
+	b, _ := json.MarshalIndent(map[string]interface{}{"Replace": ov}, "", " ")
+	ovPath := filepath.Join(c.Scratch, "overlay-factobs.json")
+	if err := os.WriteFile(ovPath, b, 0o644); err != nil {
+		return err
+	}
+	c.BuildArgs = append(c.BuildArgs, "-tags", "wsimobs", "-overlay", ovPath)
+	c.Extra["repo"] = repoRoot
+	c.Notes = append(c.Notes, "fact observer: one call inserted at the head of (*checker).bcheckBlock's statement loop, from the working tree's bounds.go")
+	return nil
+}
+
 func init() {
 	register(&propDef{
 		ID: "C01", Engine: "wsim", Pkg: "./engines/wsim", Level: "exploration",
@@ -9,5 +41,15 @@ func init() {
 		Real:        []string{"lang/token, lang/parse, lang/check of the working tree (the acceptance decision and every MType/MBounds annotation)"},
 		Stub:        []string{"the run-time: a tree-walking interpreter over the checked AST in ideal integers (engines/wsim/interp.go) stands in for the generated C"},
 		Assumptions: []string{"the interpreter shares the front end with the compiler: a defect there is common-mode and invisible", "programs outside the interpreter's subset are skipped and counted, never reported"},
+	})
+	register(&propDef{
+		ID: "C02", Engine: "wsim", Pkg: "./engines/wsim", Level: "exploration",
+		Runs:        map[string]int{"quick": 6000, "thorough": 600000},
+		MaxSec:      map[string]float64{"quick": 600, "thorough": 3600},
+		Prepare:     prepareWsimObserver,
+		Rule:        "one run = one Wuffs program (hand corpus; seeded near-miss generator; seeded axiom-instance generator reading lang/check/axioms.md of the working tree) given to the working tree's checker, whose fact list before every statement is recorded through an observer injected at check time; if ACCEPTED, the program is executed by the reference interpreter under a seeded history of public calls on one persistent receiver, and every time execution reaches a statement - every loop iteration, every call - each recorded fact is evaluated in ideal integers on the concrete state and must be true. Facts the evaluator cannot interpret are counted as skipped, never reported",
+		Real:        []string{"lang/token, lang/parse, lang/check of the working tree: the acceptance decision, the fact list at every statement (facts from if/while conditions, assignments, asserts, axioms; fact dropping and rewriting on =, +=, -=, impure calls; if/else reconciliation; loop pre/inv/post)"},
+		Stub:        []string{"the run-time: a tree-walking interpreter over the checked AST in ideal integers (engines/wsim/interp.go)", "the observation point: one call inserted into bcheckBlock through go build -overlay"},
+		Assumptions: []string{"the interpreter shares the front end with the compiler (common-mode)", "coroutines and I/O built-ins are outside the interpreter's subset, so fact invalidation at suspension points is not reached by this check (std/ under engine C reaches the consequences only)"},
 	})
 }
